@@ -79,6 +79,14 @@ Mutations(b) ==
   \cup { [req |-> b.req, op |-> "strayLF",  site |-> i, segs |-> InsBefore(s, i, Raw("\n"))] : i \in Idx(s) }
   \cup { [req |-> b.req, op |-> "swap",     site |-> i, segs |-> Replace(Replace(s, i, s[i + 1]), i + 1, s[i])] : i \in 1..(Len(s) - 1) }
 
+\* the whole exchange from a server that ends its lines with a bare LF (rendered so by the harness for the "lf-" operations),
+\* complete and cut off after every segment
+LfOnly(b) ==
+  LET s == b.segs IN
+       { [req |-> b.req, op |-> "lf-truncate", site |-> i, segs |-> SubSeq(s, 1, i)] : i \in Idx(s) }
+  \cup { [req |-> b.req, op |-> "lf-only", site |-> 0, segs |-> s] }
+  \cup { [req |-> b.req, op |-> "lf-delete", site |-> i, segs |-> RemoveAtIdx(s, i)] : i \in { j \in Idx(s) : s[j].t = "blank" } }
+
 \* many interim responses before the final one
 ManyInterim ==
   { [req |-> r, op |-> "many-interim", site |-> n,
@@ -115,7 +123,7 @@ OddRedirects ==
                 St("1.1", "307", "Again"), Fd("Location", "/next"), Fd("Content-Length", "0"), Bl,
                 St("1.1", "200", "OK"), Fd("Content-Length", "0"), Bl>>] : loc \in OddLocations, r \in {"get", "head"} }
 
-All == OddRedirects \cup ManyInterim \cup UNION { Mutations(Bases[k]) : k \in Idx(Bases) } \cup Splices \cup Extremes \cup { [req |-> Bases[k].req, op |-> "none", site |-> 0, segs |-> Bases[k].segs] : k \in Idx(Bases) }
+All == OddRedirects \cup ManyInterim \cup UNION { LfOnly(Bases[k]) : k \in Idx(Bases) } \cup UNION { Mutations(Bases[k]) : k \in Idx(Bases) } \cup Splices \cup Extremes \cup { [req |-> Bases[k].req, op |-> "none", site |-> 0, segs |-> Bases[k].segs] : k \in Idx(Bases) }
 
 Table == SetToSeq(All)
 
